@@ -162,13 +162,8 @@ func (m *USB) DecodeFromBytes(data []byte, df gopacket.DecodeFeedback) error {
 	m.DeviceAddress = data[11]
 	m.BusID = binary.LittleEndian.Uint16(data[12:14])
 
-	if uint(data[14]) == 0 {
-		m.Setup = true
-	}
-
-	if uint(data[15]) == 0 {
-		m.Data = true
-	}
+	m.Setup = uint(data[14]) == 0
+	m.Data = uint(data[15]) == 0
 
 	m.TimestampSec = int64(binary.LittleEndian.Uint64(data[16:24]))
 	m.TimestampUsec = int32(binary.LittleEndian.Uint32(data[24:28]))
